@@ -292,4 +292,116 @@ Proof.
     destruct (N.eqb_spec y q) as [->|M4]; [simpl_ne; reflexivity|]. simpl_ne. reflexivity.
 Qed.
 
+(** ... and the map stays well formed *)
+Theorem halfcell_to_base_inner_mirror_wf E n ks pe e ne c w cnt w' cnt' :
+  let q := beta w 2 ne in let p0 := beta w 0 q in let p1 := beta w 1 q in
+  wf2 n w -> pe < n ->
+  NoDup [pe; e; ne; q; p0; p1] -> ~ In 0 [pe; e; ne; q; p0; p1] ->
+  beta w 1 e = pe -> beta w 1 pe = ne -> beta w 1 ne = e -> beta w 2 e = 0 ->
+  run E (collapse_halfcell_to_base n ks pe e ne) c w cnt = (Done tt, w', cnt') ->
+  wf2 n w'.
+Proof.
+  intros q p0 p1 W Hpn Hnd Hz B1 B2 B3 Ze Hr.
+  pose proof W as [W1 W2 W3 W4 W5 W6].
+  assert (Z : pe <> 0 /\ e <> 0 /\ ne <> 0 /\ q <> 0 /\ p0 <> 0 /\ p1 <> 0).
+  { cbn [In] in Hz. repeat split; intros Q; apply Hz; rewrite Q; tauto. }
+  destruct Z as (Z1 & Z2 & Z3 & Z4 & Z5 & Z6).
+  assert (D : (pe <> e /\ pe <> ne /\ pe <> q /\ pe <> p0 /\ pe <> p1) /\ (e <> ne /\ e <> q /\ e <> p0 /\ e <> p1) /\
+              (ne <> q /\ ne <> p0 /\ ne <> p1) /\ (q <> p0 /\ q <> p1) /\ p0 <> p1).
+  { clear - Hnd. repeat match goal with Hq : NoDup (_ :: _) |- _ => inversion Hq; clear Hq; subst end.
+    cbn [In] in *. repeat split; intros Q; intuition congruence. }
+  destruct D as ((Q1 & Q2 & Q3 & Q4 & Q5) & (Q6 & Q7 & Q8 & Q9) & (Q10 & Q11 & Q12) & (Q13 & Q14) & Q15).
+  assert (Hnn : ne < n) by (rewrite <- B2; apply W2; [reflexivity|exact Hpn]).
+  assert (Hen : e < n) by (rewrite <- B3; apply W2; [reflexivity|exact Hnn]).
+  assert (Hqn : q < n) by (apply W2; [reflexivity|exact Hnn]).
+  assert (H0n : p0 < n) by (apply W2; [reflexivity|exact Hqn]).
+  assert (H1n : p1 < n) by (apply W2; [reflexivity|exact Hqn]).
+  assert (P0e : beta w 0 e = ne) by (rewrite <- B3; apply W3; [exact Hnn|rewrite B3; exact Z2]).
+  assert (P0n : beta w 0 ne = pe) by (rewrite <- B2; apply W3; [exact Hpn|rewrite B2; exact Z3]).
+  assert (P0p : beta w 0 pe = e) by (rewrite <- B1; apply W3; [exact Hen|rewrite B1; exact Z1]).
+  assert (B4 : beta w 1 p0 = q) by (apply (W4 q Hqn); exact Z5).
+  assert (P01 : beta w 0 p1 = q) by (apply (W3 q Hqn); exact Z6).
+  assert (G2q : beta w 2 q = ne) by (apply (W5 ne Hnn); exact Z4).
+  destruct (halfcell_to_base_inner_mirror E n ks pe e ne c w cnt w' cnt' Hnd Hz B1 B2 B3 B4 Ze Hr) as (Hb0 & Hu0).
+  fold q p0 p1 in Hb0, Hu0.
+  set (three := fun y => (y =? e) || (y =? ne) || (y =? q)).
+  assert (Hb : forall i y, beta w' i y =
+     if three y then (if i <? 3 then 0 else beta w i y)
+     else if (i =? 1) && (y =? pe) then p1 else if (i =? 0) && (y =? pe) then p0
+     else if (i =? 1) && (y =? p0) then pe else if (i =? 0) && (y =? p1) then pe
+     else beta w i y) by (intros i y; rewrite Hb0; reflexivity).
+  assert (Hu : forall y, unused w' y = if three y then true else unused w y) by (intros y; rewrite Hu0; reflexivity).
+  clear Hb0 Hu0.
+  assert (Three : forall y, three y = true <-> (y = e \/ y = ne \/ y = q)).
+  { intros y. unfold three. rewrite !orb_true_iff, !N.eqb_eq. tauto. }
+  assert (Out : forall y, three y = false -> y <> e /\ y <> ne /\ y <> q).
+  { intros y Hy. repeat split; intros ->; match type of Hy with three ?z = false => assert (Q : three z = true) by (apply Three; tauto) end; congruence. }
+  assert (Tpe : three pe = false) by (destruct (three pe) eqn:Q; [apply Three in Q; intuition congruence|reflexivity]).
+  assert (Tp0 : three p0 = false) by (destruct (three p0) eqn:Q; [apply Three in Q; intuition congruence|reflexivity]).
+  assert (Tp1 : three p1 = false) by (destruct (three p1) eqn:Q; [apply Three in Q; intuition congruence|reflexivity]).
+  assert (T0 : three 0 = false) by (destruct (three 0) eqn:Q; [apply Three in Q; intuition congruence|reflexivity]).
+  (* images in the new map, dimension by dimension, outside the three removed darts *)
+  assert (H1 : forall y, three y = false -> beta w' 1 y = if y =? pe then p1 else if y =? p0 then pe else beta w 1 y).
+  { intros y Hy. rewrite Hb, Hy. consts. destruct (y =? pe); [reflexivity|]. destruct (y =? p0); reflexivity. }
+  assert (H0 : forall y, three y = false -> beta w' 0 y = if y =? pe then p0 else if y =? p1 then pe else beta w 0 y).
+  { intros y Hy. rewrite Hb, Hy. consts. destruct (y =? pe); [reflexivity|]. destruct (y =? p1); reflexivity. }
+  assert (H2 : forall y, three y = false -> beta w' 2 y = beta w 2 y).
+  { intros y Hy. rewrite Hb, Hy. consts. reflexivity. }
+  assert (Hz3 : forall i y, i < 3 -> three y = true -> beta w' i y = 0).
+  { intros i y Hi Hy. rewrite Hb, Hy. apply N.ltb_lt in Hi. rewrite Hi. reflexivity. }
+  constructor.
+  - intros i Hi. rewrite Hb, T0.
+    destruct (N.eqb_spec 0 pe) as [Q|_]; [congruence|]. destruct (N.eqb_spec 0 p0) as [Q|_]; [congruence|].
+    destruct (N.eqb_spec 0 p1) as [Q|_]; [congruence|]. rewrite !andb_false_r. apply W1; exact Hi.
+  - intros i y Hi Hy. rewrite Hb.
+    assert (Zn' : 0 < n) by (apply (N.le_lt_trans _ pe); [apply N.le_0_l|exact Hpn]).
+    destruct (three y); [destruct (i <? 3); [exact Zn'|apply W2; assumption]|].
+    destruct ((i =? 1) && (y =? pe)); [exact H1n|]. destruct ((i =? 0) && (y =? pe)); [exact H0n|].
+    destruct ((i =? 1) && (y =? p0)); [exact Hpn|]. destruct ((i =? 0) && (y =? p1)); [exact Hpn|]. apply W2; assumption.
+  - intros y Hy Hnz. destruct (three y) eqn:Sy; [rewrite (Hz3 1 y eq_refl Sy) in Hnz; congruence|].
+    destruct (Out y Sy) as (O1 & O2 & O3).
+    rewrite (H1 y Sy) in Hnz |- *.
+    destruct (N.eqb_spec y pe) as [->|Np]; [rewrite (H0 p1 Tp1); simpl_ne; reflexivity|].
+    destruct (N.eqb_spec y p0) as [->|N0]; [rewrite (H0 pe Tpe); simpl_ne; reflexivity|].
+    pose proof (W3 y Hy Hnz) as I.
+    remember (beta w 1 y) as z eqn:Ez.
+    assert (Sz : three z = false).
+    { destruct (three z) eqn:Q; [|reflexivity]. apply Three in Q. exfalso.
+      destruct Q as [->|[->| ->]]; [rewrite P0e in I|rewrite P0n in I|fold p0 in I]; congruence. }
+    rewrite (H0 z Sz).
+    destruct (N.eqb_spec z pe) as [->|Zp]; [rewrite P0p in I; congruence|].
+    destruct (N.eqb_spec z p1) as [->|Z1']; [rewrite P01 in I; congruence|]. exact I.
+  - intros y Hy Hnz. destruct (three y) eqn:Sy; [rewrite (Hz3 0 y eq_refl Sy) in Hnz; congruence|].
+    destruct (Out y Sy) as (O1 & O2 & O3).
+    rewrite (H0 y Sy) in Hnz |- *.
+    destruct (N.eqb_spec y pe) as [->|Np]; [rewrite (H1 p0 Tp0); simpl_ne; reflexivity|].
+    destruct (N.eqb_spec y p1) as [->|N1]; [rewrite (H1 pe Tpe); simpl_ne; reflexivity|].
+    pose proof (W4 y Hy Hnz) as I.
+    remember (beta w 0 y) as z eqn:Ez.
+    assert (Sz : three z = false).
+    { destruct (three z) eqn:Q; [|reflexivity]. apply Three in Q. exfalso.
+      destruct Q as [->|[->| ->]]; [rewrite B1 in I|rewrite B3 in I|fold p1 in I]; congruence. }
+    rewrite (H1 z Sz).
+    destruct (N.eqb_spec z pe) as [->|Zp]; [rewrite B2 in I; congruence|].
+    destruct (N.eqb_spec z p0) as [->|Z0']; [rewrite B4 in I; congruence|]. exact I.
+  - intros y Hy Hnz. destruct (three y) eqn:Sy; [rewrite (Hz3 2 y eq_refl Sy) in Hnz; congruence|].
+    destruct (Out y Sy) as (O1 & O2 & O3).
+    rewrite (H2 y Sy) in Hnz |- *.
+    destruct (W5 y Hy Hnz) as (I2 & I3).
+    remember (beta w 2 y) as z eqn:Ez.
+    assert (Sz : three z = false).
+    { destruct (three z) eqn:Q; [|reflexivity]. apply Three in Q. exfalso.
+      destruct Q as [->|[->| ->]].
+      - rewrite Ze in I2. rewrite <- I2, (W1 2 eq_refl) in Ez. congruence.
+      - fold q in I2. congruence.
+      - rewrite G2q in I2. congruence. }
+    rewrite (H2 z Sz). split; assumption.
+  - intros y Hy Hux i Hi. rewrite Hu in Hux. destruct (three y) eqn:Sy; [apply Hz3; assumption|].
+    pose proof (W6 y Hy Hux) as Fr. rewrite Hb, Sy.
+    destruct (N.eqb_spec y pe) as [->|Np]; [rewrite (Fr 1 eq_refl) in B2; congruence|].
+    destruct (N.eqb_spec y p0) as [->|N0]; [rewrite (Fr 1 eq_refl) in B4; congruence|].
+    destruct (N.eqb_spec y p1) as [->|N1]; [rewrite (Fr 0 eq_refl) in P01; congruence|].
+    rewrite !andb_false_r. apply Fr; exact Hi.
+Qed.
+
 End CollapseMirror.
